@@ -55,9 +55,11 @@ _FNS: dict = {}
 STATS = {"float_leaks": 0, "mono_mul": 0}
 
 
-class Unsupported(Exception):
+class Unsupported(BaseException):
     """Raised when the engine meets something it cannot model; the path is
-    counted as aborted, never as a pass and never as a violation."""
+    counted as aborted, never as a pass and never as a violation.  Derives
+    from BaseException so that the library's own `except Exception` blocks
+    cannot swallow it."""
 
 
 def reset():
@@ -1447,7 +1449,17 @@ def sarccos(x) -> Ang:
         special = {Fraction(1): Fraction(0), Fraction(0): Fraction(1, 2), Fraction(-1): Fraction(1), Fraction(1, 2): Fraction(1, 3), Fraction(-1, 2): Fraction(2, 3)}
         if v in special:
             return Ang({}, special[v])
-    s = ssqrt(ONE - x * x)
+    rad = ONE - x * x
+    if not x.is_const():
+        inside = mkbool(Cond("<=", pneg(rad.re)))
+        if not inside:
+            # numpy returns nan (with a warning) and carries on: model the
+            # result as an angle with arbitrary, unrelated cos/sin values
+            _ARC[0] += 1
+            c = var(f"nan#{_ARC[0]}c")
+            sn = var(f"nan#{_ARC[0]}s")
+            return Ang({AngAtom(f"nan#{_ARC[0]}", c.re, sn.re): 1}, F0)
+    s = ssqrt(rad)
     _ARC[0] += 1
     aa = AngAtom(f"arccos#{_ARC[0]}", x.re, s.re)
     return Ang({aa: 1}, F0)
